@@ -37,7 +37,7 @@ def run(chk):
         if o["ev"] == "ListRt":
             lists.add((o["number"], o["path"]))
     if len(lists) < 40:
-        raise ToolError("vacuity: only %d lists exercised" % len(lists))
+        chk.vacuity("vacuity: only %d lists exercised" % len(lists))
     chk.cov["distinct_nontrivial"] = len(set(ln for ln, o in r["lines"]))
     chk.assumptions += ["count-field positions, widths, capacities and element widths are extracted from the macros in src/msg (structure knowledge, cross-checked by pinned facts: 1001 count at payload bit 55 width 5, 1057 block 135 bits, MSM header 73 bits)",
                         "nested lists of 1302 (database links) are exercised only through their parent list here"]
